@@ -374,7 +374,7 @@ def pat_map_kw(I, n, env):
     return Opaque("mapped keywords")
 
 
-def p_type_call(I, v):
+def p_type_call(I, *a):
     def ctor(I2, *a, **k):
         I2.ghost["rebuilt"] = True
         return Opaque("rebuilt value")
